@@ -83,68 +83,106 @@ func checkC12(c *Ctx) {
 			c.Check(ok, "C12-R2", "buildMouseEvent:"+nm+"-clipped", p.pos(call.Pos()), "NewEventMouse receives clip(x,y)#"+fmt.Sprint(i))
 		}
 	}
-	at := atomsOf(clip)
-	need := map[string][]string{
-		"x<0":   {"x < 0", "x >= 0"},
-		"y<0":   {"y < 0", "y >= 0"},
-		"x>w-1": {},
-		"y>h-1": {},
-	}
-	for k, alts := range need {
-		ok := false
-		for a := range at {
-			for _, alt := range alts {
-				if a == alt {
-					ok = true
-				}
+	if h, okH := clampHelper(p, clip); okH {
+		// clip hands each coordinate with its extent to one clamping helper: the tests and the clamp
+		// values are checked in the helper, the pairing (x with the width, y with the height) in clip
+		hat := atomsOf(h)
+		v, size := h.Params[0].Name(), h.Params[1].Name()
+		lo, hi := false, false
+		for a := range hat {
+			if a == v+" < 0" || a == v+" >= 0" {
+				lo = true
 			}
-			if len(alts) == 0 {
-				v := k[:1]
-				idx := "#0"
-				if v == "y" {
-					idx = "#1"
-				}
-				// x > (Size()#0 - 1), any orientation
-				if strings.Contains(a, "Size(") && strings.Contains(a, idx+"-1)") && (strings.HasPrefix(a, v+" >") || strings.HasSuffix(a, "< "+v)) {
-					ok = true
-				}
+			if strings.Contains(a, "("+size+"-1)") && (strings.HasPrefix(a, v+" >") || strings.HasSuffix(a, "< "+v) || strings.HasPrefix(a, v+" <=") || strings.HasSuffix(a, ">= "+v)) {
+				hi = true
 			}
 		}
-		c.Check(ok, "C12-R2", "clip:"+k, p.pos(clip.Pos()), fmt.Sprintf("clamp test present among %v", sortedKeys(at)))
-	}
-	// clamp values: returned phis contain 0 and size-1
-	okV := 0
-	for _, r := range returnsOf(clip) {
-		for _, res := range r.Results {
-			if phi, isPhi := res.(*ssa.Phi); isPhi {
-				has0, hasM := false, false
-				var walk func(v ssa.Value, d int)
-				walk = func(v ssa.Value, d int) {
-					if d > 4 {
-						return
-					}
-					if k, isC := constInt(v); isC && k == 0 {
+		for _, k := range []string{"x<0", "y<0"} {
+			c.Check(lo, "C12-R2", "clip:"+k, p.pos(h.Pos()), fmt.Sprintf("clamp test present in %s among %v", h.Name(), sortedKeys(hat)))
+		}
+		for _, k := range []string{"x>w-1", "y>h-1"} {
+			c.Check(hi, "C12-R2", "clip:"+k, p.pos(h.Pos()), fmt.Sprintf("clamp test present in %s among %v", h.Name(), sortedKeys(hat)))
+		}
+		has0, hasM := false, false
+		eachInstr(h, func(in ssa.Instruction) {
+			if phi, isPhi := in.(*ssa.Phi); isPhi {
+				for _, e := range phi.Edges {
+					if k, isC := constInt(e); isC && k == 0 {
 						has0 = true
 					}
-					if bo, isBO := v.(*ssa.BinOp); isBO && bo.Op == token.SUB {
-						if k, isC := constInt(bo.Y); isC && k == 1 && strings.Contains(valName(bo.X), "Size(") {
+					if bo, isBO := e.(*ssa.BinOp); isBO && bo.Op == token.SUB && bo.X == ssa.Value(h.Params[1]) {
+						if k, isC := constInt(bo.Y); isC && k == 1 {
 							hasM = true
 						}
 					}
-					if ph, isP := v.(*ssa.Phi); isP {
-						for _, e := range ph.Edges {
-							walk(e, d+1)
-						}
+				}
+			}
+		})
+		c.Check(has0 && hasM, "C12-R2", "clip:clamp-values", p.pos(h.Pos()), "the helper clamps to 0 and size-1")
+	} else {
+		at := atomsOf(clip)
+		need := map[string][]string{
+			"x<0":   {"x < 0", "x >= 0"},
+			"y<0":   {"y < 0", "y >= 0"},
+			"x>w-1": {},
+			"y>h-1": {},
+		}
+		for k, alts := range need {
+			ok := false
+			for a := range at {
+				for _, alt := range alts {
+					if a == alt {
+						ok = true
 					}
 				}
-				walk(phi, 0)
-				if has0 && hasM {
-					okV++
+				if len(alts) == 0 {
+					v := k[:1]
+					idx := "#0"
+					if v == "y" {
+						idx = "#1"
+					}
+					// x > (Size()#0 - 1), any orientation
+					if strings.Contains(a, "Size(") && strings.Contains(a, idx+"-1)") && (strings.HasPrefix(a, v+" >") || strings.HasSuffix(a, "< "+v)) {
+						ok = true
+					}
+				}
+			}
+			c.Check(ok, "C12-R2", "clip:"+k, p.pos(clip.Pos()), fmt.Sprintf("clamp test present among %v", sortedKeys(at)))
+		}
+		// clamp values: returned phis contain 0 and size-1
+		okV := 0
+		for _, r := range returnsOf(clip) {
+			for _, res := range r.Results {
+				if phi, isPhi := res.(*ssa.Phi); isPhi {
+					has0, hasM := false, false
+					var walk func(v ssa.Value, d int)
+					walk = func(v ssa.Value, d int) {
+						if d > 4 {
+							return
+						}
+						if k, isC := constInt(v); isC && k == 0 {
+							has0 = true
+						}
+						if bo, isBO := v.(*ssa.BinOp); isBO && bo.Op == token.SUB {
+							if k, isC := constInt(bo.Y); isC && k == 1 && strings.Contains(valName(bo.X), "Size(") {
+								hasM = true
+							}
+						}
+						if ph, isP := v.(*ssa.Phi); isP {
+							for _, e := range ph.Edges {
+								walk(e, d+1)
+							}
+						}
+					}
+					walk(phi, 0)
+					if has0 && hasM {
+						okV++
+					}
 				}
 			}
 		}
+		c.Check(okV == 2, "C12-R2", "clip:clamp-values", p.pos(clip.Pos()), "both results are clamped to 0 and size-1")
 	}
-	c.Check(okV == 2, "C12-R2", "clip:clamp-values", p.pos(clip.Pos()), "both results are clamped to 0 and size-1")
 	c12Normalise(c, p, sgr, x11, bm)
 	c12Release(c, p, sgr)
 	for _, fn := range []*ssa.Function{sgr, x11} {
@@ -593,4 +631,33 @@ func c12Digits(c *Ctx, p *Prog, fn *ssa.Function) {
 	})
 	c.Check(acc, "C12-R11", "parseSgrMouse:decimal-accumulator", p.pos(fn.Pos()), "val = val*10 + (b[i] - '0')")
 	c.Check(negs >= 2, "C12-R11", "parseSgrMouse:minus-applied-per-field", p.pos(fn.Pos()), fmt.Sprintf("%d negations, each behind the minus flag (at the field separator and at the final byte)", negs))
+}
+
+// clampHelper: clip returns H(x, width), H(y, height) for one module helper H(v, size int) int, where
+// width and height are the two results of the cell buffer's Size().
+func clampHelper(p *Prog, clip *ssa.Function) (*ssa.Function, bool) {
+	rets := returnsOf(clip)
+	if len(rets) != 1 || len(rets[0].Results) != 2 || len(clip.Params) != 3 {
+		return nil, false
+	}
+	var h *ssa.Function
+	for i, res := range rets[0].Results {
+		call, ok := res.(*ssa.Call)
+		if !ok || len(call.Call.Args) != 2 {
+			return nil, false
+		}
+		callee := call.Call.StaticCallee()
+		if callee == nil || callee.Pkg != p.Tcell || (h != nil && callee != h) || len(callee.Params) != 2 {
+			return nil, false
+		}
+		h = callee
+		if call.Call.Args[0] != ssa.Value(clip.Params[1+i]) {
+			return nil, false
+		}
+		ex, isEx := call.Call.Args[1].(*ssa.Extract)
+		if !isEx || ex.Index != i || !strings.Contains(valName(ex.Tuple), "Size(") {
+			return nil, false
+		}
+	}
+	return h, h != nil
 }
